@@ -26,3 +26,10 @@ def match(prop, msg, inst, rr):
     if prop == "C05" and "did not return" in msg and active("F12") and sig_F12(inst):
         return "F12"
     return None
+
+def sig_F15(inst):
+    """the unconnected port belongs to the process without out-ports that becomes the driver"""
+    i = norm_inst(inst)
+    port = inst.get("_unwired", "")
+    proc = port.rsplit(".", 1)[0]
+    return any(p["name"] == proc and p["kind"] in ("cmd", "gofunc") and not p["outs"] for p in i["procs"])
